@@ -409,8 +409,9 @@ func (e *Engine) globalStructConst(st *State, g *ssa.Global) (Value, bool) {
 
 // tableDefineFun renders a `table` spec function as an ite chain over the literal.
 // Forms:  table <var> [in <func>] default <expr>            (scalar values)
-//         table <var>.<Field> ... / table <var>#len / table <var>#<i>   (struct field, list length, list element)
-//         table <var>@<argIndex>  (i-th constant argument of a call-valued entry; string results indexed by 2nd param)
+//
+//	table <var>.<Field> ... / table <var>#len / table <var>#<i>   (struct field, list length, list element)
+//	table <var>@<argIndex>  (i-th constant argument of a call-valued entry; string results indexed by 2nd param)
 func (e *Engine) tableDefineFun(sp *SpecFunc) string {
 	if strings.HasPrefix(sp.Table, "literal:") {
 		return e.literalDefineFun(sp)
